@@ -554,4 +554,42 @@ PROPS = {
                 "odd requests, an account query for a wallet-style node id",
         "trusted": [],
     },
+    "C10": {
+        "harness": "c10",
+        "imports": ["Base", "Snapshot", "Check10"],
+        "case_type": "c10_case",
+        "check": "c10_check",
+        "timeout_quick": 1200,
+        "theories": ["theories/Base.v", "theories/Store.v", "theories/StoreProofs.v", "theories/Pool.v", "theories/PoolProofs.v",
+                     "theories/BalanceProofs.v", "theories/Conc.v", "theories/ConcProofs.v", "theories/SerialProofs.v",
+                     "theories/Snapshot.v", "theories/SnapshotProofs.v", "theories/NonceProofs.v", "gen/Facts.v"],
+        "check_theories": ["theories/Check10.v"],
+        "level_text": "Four parts of different strength. (a) Store operations are atomic: computed obligations over "
+                      "facts regenerated from the sources (every in-memory method takes the mutex, Lock then deferred "
+                      "Unlock, before touching a field; every badger method is one transaction with no write outside "
+                      "it). (b) No update is lost: Coq theorems that after any sequence of balance updates every "
+                      "balance is its initial value plus the deltas addressed to its owner, that permuting the updates "
+                      "changes no balance, that under every interleaving of whole requests the ledger total at "
+                      "quiescence is the initial total minus settled credit, and that racing duplicate nonces have at "
+                      "most one winner. (c) Full serialisability of keep-alives is refuted for the pool without a "
+                      "per-node critical section (two overlapping keep-alives of one node bill the span twice: witness "
+                      "by computation on the interleaving model); the repaired pool serialises the updates of each "
+                      "node, and the witness schedule is forced on the real pool through a barrier store wrapper. "
+                      "(d) Snapshots: Coq theorem that with fresh-cell updates a value handed out is never altered by "
+                      "any later history (heap model), in-place updates refuted; tied to both drivers by keeping every "
+                      "balance they return and re-reading it after later writes, compared in-kernel with the model. "
+                      "PARTIAL: absence of data races is runtime behaviour no Gallina model exhibits; it is searched "
+                      "for with the race detector on the concurrent workloads (memory/badger keep-alives, balance "
+                      "updates, withdrawals, registry connect/close/peer, Remote calls).",
+        "level_note": "Trusted: Coq kernel; Go's sync.Mutex and memory model; badger's snapshot isolation and conflict "
+                      "detection; the AST-based lock/transaction shape extractors; the race detector only sees the "
+                      "schedules that happen to run.",
+        "technique": "Coq proof (commutation of balance updates, schedule induction, heap model) + computed obligations over "
+                     "regenerated lock/transaction facts + vm_compute correspondence for snapshots + forced interleaving "
+                     "and race-detector runs on the real code",
+        "rule": "120 snapshot histories (8-32 adds/gets over a trial node, a linked node and its wallet, multi-word "
+                "amounts), both drivers; per driver one forced same-node interleaving and one 12x40 concurrent "
+                "unit-credit run; one race-detector run of 10 concurrent workloads",
+        "trusted": [],
+    },
 }
